@@ -367,9 +367,13 @@ func (c *Ctx) Len() int { return len(c.lines) }
 
 func (c *Ctx) Raw(line string) { c.lines = append(c.lines, line) }
 
+// nameSalt (GOVC_SALT) perturbs every generated symbol name. Solver heuristics depend on names, so running a
+// check under a few salts (tools/stability.sh) shows which proofs only succeed by luck of naming.
+var nameSalt = os.Getenv("GOVC_SALT")
+
 func (c *Ctx) Fresh(prefix string, s Sort) Term {
 	c.n++
-	name := fmt.Sprintf("%s!%d", sanitize(prefix), c.n)
+	name := fmt.Sprintf("%s%s!%d", sanitize(prefix), nameSalt, c.n)
 	c.lines = append(c.lines, fmt.Sprintf("(declare-const %s %s)", name, s))
 	c.decl[name] = s
 	return Term{name, s}
@@ -559,7 +563,15 @@ func Solve(script string, getValues []string, timeoutS int, requireAll bool) Sol
 			_ = cmd.Run()
 			ms := time.Since(t0).Milliseconds()
 			o := out.String()
-			first := strings.TrimSpace(strings.SplitN(o, "\n", 2)[0])
+			first := ""
+			for _, ln := range strings.Split(o, "\n") {
+				ln = strings.TrimSpace(ln)
+				if ln == "" || strings.HasPrefix(ln, "WARNING") {
+					continue // z3 prints pattern warnings before the answer
+				}
+				first = ln
+				break
+			}
 			st := "unknown"
 			switch {
 			case first == "unsat":
